@@ -113,4 +113,48 @@ theorem uniformInt_bounds (lo hi : Int) (r : ℝ) (h : lo ≤ hi) (h0 : 0 ≤ r)
   · exact ⟨h, le_refl _⟩
   · exact ⟨hlo, by omega⟩
 
+/-! ## the step-count conversion of `PathControl` at exact real arithmetic -/
+
+/-- `(int)floor(0.5 + duration / stepSize)` and `steps * stepSize` of `Model/Control.lean` at `ℝ` -/
+noncomputable abbrev durToStepsR (d res : ℝ) : Int := @durToSteps ℝ numReal d res
+noncomputable abbrev durOfStepsR (k : Nat) (h : ℝ) : ℝ := @durOfSteps ℝ numReal k h
+
+theorem durOfSteps_eq (k : Nat) (h : ℝ) : durOfStepsR k h = (k : ℝ) * h := rfl
+
+theorem durToSteps_eq (d res : ℝ) : durToStepsR d res = ⌊(1 / 2 : ℝ) + d / res⌋ := by
+  show (if (0 : ℝ) ≤ ((⌊((5 : ℕ) : ℝ) / (10 : ℝ) ^ 1 + d / res⌋ : ℤ) : ℝ) then
+      ⌊((⌊((5 : ℕ) : ℝ) / (10 : ℝ) ^ 1 + d / res⌋ : ℤ) : ℝ)⌋
+    else ⌈((⌊((5 : ℕ) : ℝ) / (10 : ℝ) ^ 1 + d / res⌋ : ℤ) : ℝ)⌉) = _
+  rw [Int.floor_intCast, Int.ceil_intCast, ite_self]
+  congr 2
+  norm_num
+
+theorem durToSteps_round (k : ℕ) (h d : ℝ) (hq : |d / h - k| < 1 / 2) : durToStepsR d h = k := by
+  rw [durToSteps_eq, Int.floor_eq_iff]
+  have := abs_lt.mp hq
+  constructor
+  · push_cast; linarith [this.1]
+  · push_cast; linarith [this.2]
+
+theorem durToSteps_exact (k : ℕ) (h : ℝ) (hh : 0 < h) : durToStepsR (durOfStepsR k h) h = k := by
+  apply durToSteps_round
+  rw [durOfSteps_eq, mul_div_assoc, div_self (ne_of_gt hh), mul_one, sub_self, abs_zero]
+  norm_num
+
+/-- the quotient of the truncation witness -/
+theorem trunc_witness_quot : ((6 - 1 / 2 ^ 50) * (7 / 10) : ℝ) / (7 / 10) = 6 - 1 / 2 ^ 50 := by
+  rw [mul_div_assoc, div_self (by norm_num), mul_one]
+
+theorem trunc_witness :
+    |((6 - 1 / 2 ^ 50) * (7 / 10) : ℝ) / (7 / 10) - ((6 : ℕ) : ℝ)| < 1 / 2 ∧
+    durToStepsR ((6 - 1 / 2 ^ 50) * (7 / 10)) (7 / 10) = 6 ∧
+    ⌊((6 - 1 / 2 ^ 50) * (7 / 10) : ℝ) / (7 / 10)⌋ = 5 := by
+  have hq : |((6 - 1 / 2 ^ 50) * (7 / 10) : ℝ) / (7 / 10) - ((6 : ℕ) : ℝ)| < 1 / 2 := by
+    rw [trunc_witness_quot, abs_lt]
+    constructor <;> norm_num
+  refine ⟨hq, ?_, ?_⟩
+  · exact_mod_cast durToSteps_round 6 _ _ hq
+  · rw [trunc_witness_quot, Int.floor_eq_iff]
+    constructor <;> norm_num
+
 end OmplModel.ControlReal
